@@ -167,8 +167,32 @@ impl Case {
 
 const SENTINEL: i32 = 0x7bad_beef;
 
-/// Returns None if correct, else (index, got, expected).
-fn run_case(exec: &Exec, c: &Case) -> Result<Option<(usize, i32, i64)>, String> {
+/// Exact reference for the case; `ignore_packed_zp`: zero points of prepacked operands taken as 0.
+fn reference(c: &Case, ignore_packed_zp: bool) -> Vec<i64> {
+    let (m, k, n) = (c.m, c.k, c.n);
+    let az = c.az.vec(m);
+    let bz = c.bz.vec(n);
+    let prev = |i: usize| -> i32 { ((i * 37) % 1001) as i32 - 500 };
+    let mut r = vec![0i64; m * n];
+    for i in 0..m {
+        let azv = if ignore_packed_zp && c.a_packed { 0 } else { az.as_ref().map(|z| z[i] as u8 as i64).unwrap_or(0) };
+        for j in 0..n {
+            let bzv = if ignore_packed_zp && c.b_packed { 0 } else { bz.as_ref().map(|z| z[j] as i8 as i64).unwrap_or(0) };
+            let mut acc: i64 = 0;
+            for kk in 0..k {
+                acc += (c.a.at(i, kk) as u8 as i64 - azv) * (c.b.at(kk, j) as i8 as i64 - bzv);
+            }
+            if c.entry == "gemm_beta1" {
+                acc += prev(i * n + j) as i64;
+            }
+            r[i * n + j] = acc;
+        }
+    }
+    r
+}
+
+/// Returns None if correct, else (index, got, expected, explained_by_ignored_zero_point).
+fn run_case(exec: &Exec, c: &Case) -> Result<Option<(usize, i32, i64, bool)>, String> {
     let (m, k, n) = (c.m, c.k, c.n);
     let a: Vec<u8> = (0..m * k).map(|x| c.a.at(x / k, x % k) as u8).collect();
     // B storage: row-major [k,n] or column-major
@@ -208,21 +232,11 @@ fn run_case(exec: &Exec, c: &Case) -> Result<Option<(usize, i32, i64)>, String> 
             exec.gemm(&mut out, ain, bin, GemmOptions { alpha: 1.0, beta: if e == "gemm_beta1" { 1 } else { 0 }, bias: None, a_quant: aq, b_quant: bq }).map_err(|e| format!("{e:?}"))?;
         }
     }
-    for i in 0..m {
-        let azv = az.as_ref().map(|z| z[i] as i64).unwrap_or(0);
-        for j in 0..n {
-            let bzv = bz.as_ref().map(|z| z[j] as i64).unwrap_or(0);
-            let mut acc: i64 = 0;
-            for kk in 0..k {
-                acc += (c.a.at(i, kk) as u8 as i64 - azv) * (c.b.at(kk, j) as i8 as i64 - bzv);
-            }
-            if c.entry == "gemm_beta1" {
-                acc += prev(i * n + j) as i64;
-            }
-            if out[i * n + j] as i64 != acc {
-                return Ok(Some((i * n + j, out[i * n + j], acc)));
-            }
-        }
+    let exp = reference(c, false);
+    if let Some(i) = (0..m * n).find(|&i| out[i] as i64 != exp[i]) {
+        let alt = reference(c, true);
+        let explained = (c.a_packed || c.b_packed) && (0..m * n).all(|i| out[i] as i64 == alt[i]);
+        return Ok(Some((i, out[i], exp[i], explained)));
     }
     Ok(None)
 }
@@ -237,10 +251,16 @@ fn check(ctx: &Ctx, exec: &Exec, c: &Case, verdict: bool, range: &str, t: &mut T
     t.cases += 1;
     match vp_core::catch(|| run_case(exec, c)) {
         Ok(Ok(None)) => t.ok += 1,
-        Ok(Ok(Some((idx, got, exp)))) => {
+        Ok(Ok(Some((idx, got, exp, explained)))) => {
             if verdict {
                 let what = if got == SENTINEL { "output element not written" } else { "wrong value" };
-                ctx.violation(c.signature(what, range), c.json(), format!("out[{},{}] = {got}, exact value {exp}; case {}", idx / c.n, idx % c.n, c.json()));
+                let sig = if explained {
+                    // one root cause for every kernel that keeps zero points in the packed panels
+                    "int8 gemm: zero points passed to gemm() are ignored for operands packed with prepack_a / prepack_b (result equals the product with those zero points = 0)".to_string()
+                } else {
+                    c.signature(what, range)
+                };
+                ctx.violation(sig, c.json(), format!("kernel {}: out[{},{}] = {got}, exact value {exp}; case {}", c.kernel, idx / c.n, idx % c.n, c.json()));
             } else {
                 t.observed_saturation += 1;
             }
@@ -522,24 +542,30 @@ fn matmul_integer_part(ctx: &Ctx, thorough: bool, samples: &Samples) -> (u64, u6
 
 fn conv_integer_part(ctx: &Ctx, thorough: bool, samples: &Samples) -> (u64, u64) {
     let (mut cases, mut ok) = (0u64, 0u64);
+    let mut loaded = 0u64;
     // (C, H, W, M, kh, kw, pad, stride)
     let geoms: Vec<(usize, usize, usize, usize, usize, usize, usize, usize)> = if thorough {
-        vec![(1, 3, 3, 1, 1, 1, 0, 1), (2, 5, 5, 3, 3, 3, 1, 1), (3, 7, 6, 4, 2, 3, 0, 2), (4, 8, 8, 17, 3, 3, 1, 1), (5, 6, 9, 2, 1, 1, 0, 1)]
+        vec![(1, 3, 3, 1, 1, 1, 0, 1), (2, 5, 5, 3, 3, 3, 1, 1), (2, 5, 5, 3, 3, 3, 0, 1), (3, 7, 6, 4, 2, 3, 0, 2), (4, 8, 8, 17, 3, 3, 1, 1), (4, 6, 6, 2, 3, 3, 1, 2), (5, 6, 9, 2, 1, 1, 0, 1), (4, 9, 9, 5, 3, 3, 2, 1), (8, 4, 4, 3, 2, 2, 1, 1)]
     } else {
-        vec![(2, 5, 5, 3, 3, 3, 1, 1), (3, 7, 6, 4, 2, 3, 0, 2), (4, 8, 8, 17, 3, 3, 1, 1)]
+        vec![(1, 3, 3, 1, 1, 1, 0, 1), (2, 5, 5, 3, 3, 3, 1, 1), (2, 5, 5, 3, 3, 3, 0, 1), (3, 7, 6, 4, 2, 3, 0, 2), (4, 8, 8, 17, 3, 3, 1, 1), (4, 6, 6, 2, 3, 3, 1, 2)]
     };
     for w_unsigned in [false, true] {
         for &(c, h, w, m, kh, kw, pad, stride) in &geoms {
-            for zp_form in ["none", "scalar", "per-channel"] {
+            for zp_form in ["none", "scalar", "scalar-x3", "per-channel", "per-channel-x255"] {
                 for fill in 0..3 {
                     let xv: [i32; 4] = [0, 1, 128, 255];
                     let wv: [i32; 4] = if w_unsigned { [0, 2, 127, 255] } else { [-128, -127, 1, 127] };
                     let x: Vec<i32> = (0..c * h * w).map(|i| match fill { 0 => 255, 1 => xv[(i * 7 + i / w) % 4], _ => if (i + i / w) % 2 == 0 { 255 } else { 0 } }).collect();
                     let wt: Vec<i32> = (0..m * c * kh * kw).map(|i| match fill { 0 => wv[0], 1 => wv[(i * 5 + 1) % 4], _ => if i % 2 == 0 { wv[3] } else { wv[0] } }).collect();
-                    let xz: i32 = if zp_form == "none" { 0 } else { 128 };
+                    let xz: i32 = match zp_form {
+                        "none" => 0,
+                        "scalar-x3" => 3,
+                        "per-channel-x255" => 255,
+                        _ => 128,
+                    };
                     let wz: Vec<i32> = match zp_form {
                         "none" => vec![0],
-                        "scalar" => vec![wv[2]],
+                        "scalar" | "scalar-x3" => vec![wv[2]],
                         _ => (0..m).map(|i| wv[(i + 1) % 4]).collect(),
                     };
                     let mut g = Graph::new("ci");
@@ -548,7 +574,7 @@ fn conv_integer_part(ctx: &Ctx, thorough: bool, samples: &Samples) -> (u64, u64)
                     let mut ins = vec!["X", "W"];
                     if zp_form != "none" {
                         g.initializers.push(int_tensor("xz", &[], &[xz], true));
-                        let dims: Vec<i64> = if zp_form == "scalar" { vec![] } else { vec![m as i64] };
+                        let dims: Vec<i64> = if zp_form.starts_with("scalar") { vec![] } else { vec![m as i64] };
                         g.initializers.push(int_tensor("wz", &dims, &wz, w_unsigned));
                         ins.push("xz");
                         ins.push("wz");
@@ -572,6 +598,7 @@ fn conv_integer_part(ctx: &Ctx, thorough: bool, samples: &Samples) -> (u64, u64)
                             continue;
                         }
                     };
+                    loaded += 1;
                     let inputs = vec![(model.node_id("X").unwrap(), value_of(&x, &[1, c, h, w], true).into())];
                     let out_id = model.node_id("Y").unwrap();
                     let y: Tensor<i32> = match vp_core::catch(|| model.run(inputs, &[out_id], None)) {
@@ -594,10 +621,11 @@ fn conv_integer_part(ctx: &Ctx, thorough: bool, samples: &Samples) -> (u64, u64)
                     };
                     let yd = y.to_vec();
                     let mut bad = None;
-                    if y.shape() != [1, m, oh, ow] {
-                        bad = Some(format!("output shape {:?} expected {:?}", y.shape(), [1, m, oh, ow]));
-                    } else {
-                        'outer: for mi in 0..m {
+                    let mut class = "wrong value";
+                    // reference; `pad_raw`: raw input value assumed in the padding region (None = the zero point)
+                    let conv_ref = |pad_raw: Option<i64>| -> Vec<i64> {
+                        let mut r = vec![0i64; m * oh * ow];
+                        for mi in 0..m {
                             let wzv = wz[mi % wz.len()] as i64;
                             for oy in 0..oh {
                                 for ox in 0..ow {
@@ -607,34 +635,57 @@ fn conv_integer_part(ctx: &Ctx, thorough: bool, samples: &Samples) -> (u64, u64)
                                             for kx in 0..kw {
                                                 let iy = (oy * stride + ky) as i64 - pad as i64;
                                                 let ix = (ox * stride + kx) as i64 - pad as i64;
-                                                // padding contributes x = x_zero_point, i.e. zero after subtraction
-                                                if iy < 0 || ix < 0 || iy >= h as i64 || ix >= w as i64 {
-                                                    continue;
-                                                }
-                                                let xvv = x[ci * h * w + iy as usize * w + ix as usize] as i64 - xz as i64;
+                                                let raw = if iy < 0 || ix < 0 || iy >= h as i64 || ix >= w as i64 {
+                                                    match pad_raw {
+                                                        None => continue,
+                                                        Some(p) => p,
+                                                    }
+                                                } else {
+                                                    x[ci * h * w + iy as usize * w + ix as usize] as i64
+                                                };
                                                 let wvv = wt[((mi * c + ci) * kh + ky) * kw + kx] as i64 - wzv;
-                                                acc += xvv * wvv;
+                                                acc += (raw - xz as i64) * wvv;
                                             }
                                         }
                                     }
-                                    let got = yd[(mi * oh + oy) * ow + ox] as i64;
-                                    if got != acc {
-                                        bad = Some(format!("Y[0,{mi},{oy},{ox}] = {got} exact {acc}"));
-                                        break 'outer;
-                                    }
+                                    r[(mi * oh + oy) * ow + ox] = acc;
                                 }
                             }
                         }
+                        r
+                    };
+                    if y.shape() != [1, m, oh, ow] {
+                        bad = Some(format!("output shape {:?} expected {:?}", y.shape(), [1, m, oh, ow]));
+                    } else {
+                        let exp = conv_ref(None);
+                        if let Some(i) = (0..exp.len()).find(|&i| yd[i] as i64 != exp[i]) {
+                            bad = Some(format!("Y[0,{},{},{}] = {} exact {} (pads {pad}, x_zero_point {xz})", i / (oh * ow), (i / ow) % oh, i % ow, yd[i], exp[i]));
+                            if pad > 0 {
+                                // hypothesis: the padding region holds the byte 0x00 of the internal i8 image (= raw u8 128) instead of the zero point
+                                let alt = conv_ref(Some(128));
+                                class = if (0..alt.len()).all(|i| yd[i] as i64 == alt[i]) {
+                                    "wrong border values with pads > 0: padding contributes as if the padded input were 128 instead of x_zero_point"
+                                } else {
+                                    "wrong values with pads > 0 (not explained by the padding-value hypothesis)"
+                                };
+                            }
+                        }
+                    }
+                    if std::env::var("C17_CONV_DEBUG").is_ok() && bad.is_some() {
+                        eprintln!("case {case}: x[..8]={:?} w[..8]={:?} xz={xz} wz={wz:?}\n  got {:?}", &x[..8.min(x.len())], &wt[..8.min(wt.len())], &yd[..yd.len().min(30)]);
                     }
                     match bad {
                         None => ok += 1,
-                        Some(d) => ctx.violation(format!("{sig_base}: wrong value"), case, d),
+                        Some(d) => ctx.violation(format!("ConvInteger: {class}"), case, format!("{sig_base}: {d}")),
                     }
                 }
             }
         }
     }
-    samples.push(|| json!({"operator": "ConvInteger", "cases": cases, "exact": ok}));
+    if loaded == 0 {
+        ctx.machinery("C17 vacuous: no ConvInteger model could be loaded");
+    }
+    samples.push(|| json!({"operator": "ConvInteger", "cases": cases, "models_loaded": loaded, "exact": ok}));
     (cases, ok)
 }
 
